@@ -83,8 +83,13 @@ def escape_item(item):
     if ce["verdict"] == "confirmed":
         out["discharged"] += 1
     elif ce["verdict"] == "counterexample":
-        m = re.search(r"check_escape\((.*)\)(?: \(which|$)", ce["detail"])
-        arg = eval(m.group(1)) if m else None
+        m = re.search(r"check_escape\((.*?)\) \(which", ce["detail"]) or re.search(r"check_escape\((.*)\)\s*$", ce["detail"])
+        try:
+            arg = eval(m.group(1)) if m else None
+        except SyntaxError:
+            arg = None
+        if not isinstance(arg, str):
+            return {"status": "inconclusive", "reason": f"CrossHair counterexample not understood: {ce['detail'][:200]}", "item": item, "section": 0}
         from superrec2.utils.tex import escape
         out["violations"].append({"kind": "escape", "text": f"escape({arg!r}) = {escape(arg) if arg is not None else '?'!r}, specification {esc(arg) if arg is not None else '?'!r}",
                                   "signature": {"kind": "escape", "arg": arg}, "data": {"what": "escape", "arg": arg},
@@ -415,6 +420,8 @@ NAME_CHARS = ["a", "B", "7", "_", BS]
 def funny(rng, base, k):
     """A name over letters, digits, underscores, backslashes that still parses as a Newick label."""
     body = "".join(rng.choice(NAME_CHARS) for _ in range(rng.randint(0, 3)))
+    if rng.random() < 0.15:
+        body += rng.choice([BS + "_", "_" + BS, BS + BS, "__"])        # the special characters next to each other, in both orders
     return f"{base}{body}{k}"
 
 
@@ -455,7 +462,7 @@ def main(argv=None):
     rng = random.Random(seed)
     q = tier == "quick"
     rep = R.Report(PROP, tier, seed)
-    items = [{"kind": "escape", "n": 4 if q else 5, "timeout": 60 if q else 600}]
+    items = [{"kind": "escape", "n": 4 if q else 5, "timeout": 60 if q else 600, "section": 0}]
     nin = 30 if q else 300
     from checks import sr_common as SR
     for _ in range(nin):
@@ -486,6 +493,8 @@ def main(argv=None):
                 continue
             items.append({"kind": "wrap", "lens": list(lens), "sample": first and n == 3})
             first = first and n != 3
+    for it in items:
+        it.setdefault("section", {"escape": 0, "render": 1, "wrap": 2}[it["kind"]])      # a failed evaluation stays attributed to its section
     res, sk = R.run_sharded(worker, items, 140 if q else 3000)
     names = ["tex.escape (CrossHair)", "render: lexer, colour scoping, labels (engine A paths)", "balanced_wrap / format_synteny (exhaustive enumeration)"]
     for si, nm in enumerate(names):
